@@ -53,6 +53,7 @@ EWOULDBLOCK == -11
 ENOENT == -2
 EAGAIN == -11
 EINTR == -4
+EPERM == -1
 SIGTERM == 15
 SIGKILL == 9
 NOOP == 0  WAITA == 1  TERMINATE == 2  KILL == 3
@@ -63,7 +64,7 @@ R_DEFAULT == 0  R_PIPE == 1  R_PARENT == 2  R_DISCARD == 3  R_STDOUT == 4
 Min(a, b) == IF a < b THEN a ELSE b
 HasBit(m, b) == (m \div b) % 2 = 1
 
-NoChild == [alive |-> "none", code |-> 0, term |-> 2, termAt |-> INF, fd |-> <<"x", "x", "x">>, self |-> FALSE, fk |-> FALSE, xo |-> FALSE]
+NoChild == [alive |-> "none", code |-> 0, term |-> 2, termAt |-> INF, fd |-> <<"x", "x", "x">>, self |-> FALSE, fk |-> FALSE, xo |-> FALSE, kf |-> FALSE]
 NoOpt == [dl |-> INF, stop |-> <<<<NOOP, 0>>, <<NOOP, 0>>, <<NOOP, 0>>>>, nb |-> FALSE]
 NoPend == [i |-> FALSE, o |-> FALSE, e |-> FALSE, x |-> FALSE]
 NoBuf == [i |-> 0, o |-> <<>>, e |-> <<>>]
@@ -165,6 +166,7 @@ RunStop(s) ==
              THEN \* on a reaped child C01 reads "the stored status", C07 "the action's error": both accepted (DESIGN 5.3)
                   Finish([s EXCEPT !.fr.r = EINVAL, !.fr.alt = IF s.life[h] = "exited" THEN {s.stv[h]} ELSE {}])
            ELSE IF s.life[h] = "exited" THEN Finish([s EXCEPT !.fr.r = s.stv[h]])
+           ELSE IF a \in {TERMINATE, KILL} /\ s.ch[h].kf THEN Finish([s EXCEPT !.fr.r = EPERM])   \* the error of a failed action ends the sequence
            ELSE LET s1 == IF a = TERMINATE THEN Deliver(s, h, SIGTERM)
                           ELSE IF a = KILL THEN Deliver(s, h, SIGKILL) ELSE s
                 IN RunStop([s1 EXCEPT !.fr.pc = "look"])
@@ -528,7 +530,11 @@ EffRedir(o) == [i |-> IF o.rin = R_DEFAULT THEN R_PIPE ELSE o.rin,
 
 \* fork mode (POSIX): start without argv; the forked child returns 0 from start, the parent gets an ordinary running child
 IsFork(o) == "fork" \in DOMAIN o /\ o.fork
-StartArgs(o) == [argv |-> <<o.prog>>, term |-> o.term, noargv |-> IF IsFork(o) THEN 1 ELSE 0,
+\* a child the caller may not signal (it changed its user id, say): kill() on it fails with "operation not permitted"; the
+\* signalling call - and a stop sequence at that action - returns that error, nothing is sent, nothing else changes
+KillFails(o) == "kf" \in DOMAIN o /\ o.kf
+StartArgs(o) == (IF KillFails(o) THEN [kf |-> 1] ELSE <<>>) @@
+                [argv |-> <<o.prog>>, term |-> o.term, noargv |-> IF IsFork(o) THEN 1 ELSE 0,
                  o |-> [dl |-> o.dl, stop |-> o.stop, nb |-> IF o.nb THEN 1 ELSE 0, rin |-> o.rin, rout |-> o.rout,
                         rerr |-> o.rerr, input |-> o.input, fork |-> IF IsFork(o) THEN 1 ELSE 0]]
 
@@ -544,7 +550,7 @@ StartError(o) ==
 StartEffect(s, h, o) ==
   LET er == EffRedir(o)
       hasIn == o.input >= 0
-      c == [alive |-> "run", code |-> 0, term |-> o.term, termAt |-> INF, self |-> o.self, fk |-> IsFork(o), xo |-> TRUE,
+      c == [alive |-> "run", code |-> 0, term |-> o.term, termAt |-> INF, self |-> o.self, fk |-> IsFork(o), xo |-> TRUE, kf |-> KillFails(o),
             fd |-> << IF er.i = R_PIPE THEN "pi" ELSE "ot",
                       IF er.o = R_PIPE THEN "po" ELSE "ot",
                       IF er.e = R_PIPE THEN "pe" ELSE IF er.e = R_STDOUT /\ er.o = R_PIPE THEN "po" ELSE "ot" >>]
@@ -575,6 +581,7 @@ Wait(h, to) ==
 Signal(fn, h, sig) ==
   IF h = 0 \/ life[h] \notin {"run", "exited"} THEN Immediate(fn, h, NoArgs, EINVAL)
   ELSE IF life[h] = "exited" THEN Immediate(fn, h, NoArgs, 0)
+  ELSE IF ch[h].kf THEN Immediate(fn, h, NoArgs, EPERM)
   ELSE /\ Idle /\ ncalls' = ncalls + 1
        /\ Finish(Done(Deliver([Bundle EXCEPT !.fr = Frame(fn, h, "done", <<>>)], h, sig)),
                  Append(hist, CallRec(fn, h, NoArgs)))
